@@ -4,6 +4,7 @@ func init() {
 	vRegister("H_C05_roundtrip", H_C05_roundtrip)
 	vRegister("H_C05_strings", H_C05_strings)
 	vRegister("H_C05_gpos", H_C05_gpos)
+	vRegister("H_C05_isdn", H_C05_isdn)
 	vRegister("H_C05_mnemonics", H_C05_mnemonics)
 	vRegister("H_C05_generic", H_C05_generic)
 	vRegister("H_C05_nopresentation", H_C05_nopresentation)
@@ -77,11 +78,36 @@ func H_C05_strings() {
 	vFixNow(1700000000)
 	ts := []uint16{TypeTXT, TypeSPF, TypeHINFO, TypeISDN, TypeURI, TypeCAA, TypeNAPTR, TypeX25, TypeAVC, TypeNINFO, TypeRESINFO, TypeUINFO}
 	t := ts[vChoice("stype", len(ts))]
-	rr, w, _ := vBuildRR("r.", t)
+	rr, w, _ := vBuildRRWith("r.", t, func(g *vGen) {
+		switch t { // types with one or two strings afford one octet more per string
+		case TypeHINFO, TypeX25, TypeURI, TypeCAA, TypeUINFO:
+			g.maxStr++
+		case TypeISDN:
+			g.maxStr++
+		}
+	})
 	vAssume(rr != nil)
 	rr1, off, err := UnpackRR(w, 0)
 	vAssume(err == nil && off == len(w))
 	vC05Reparse(rr1, w, t)
+}
+
+// H_C05_isdn: ISDN address of the form <letter><any octet><letter> with an empty or one-octet subaddress (the parser
+// splits a lone character-string at blanks, so an address containing a blank must be printed with its subaddress).
+func H_C05_isdn() {
+	a, m, b := vU8("a"), vU8("m"), vU8("b")
+	vAssume(a >= 'a' && a <= 'z' && b >= 'a' && b <= 'z')
+	w := []byte{1, vLower("l"), 0, 0, 20, 0, 1, 0, 0, 0, 60, 0, 0, 3, a, m, b}
+	if vChoice("sub", 2) == 1 {
+		w = append(w, 1, vU8("s"))
+	} else {
+		w = append(w, 0) // (the layout with the optional <sa> string left out altogether is not what Pack produces)
+	}
+	rd := len(w) - 13
+	w[11], w[12] = byte(rd>>8), byte(rd)
+	rr1, off, err := UnpackRR(w, 0)
+	vAssume(err == nil && off == len(w))
+	vC05Reparse(rr1, w, TypeISDN)
 }
 
 // H_C05_gpos: GPOS holds three numeric text fields (RFC 1712); records with such fields read back.
